@@ -24,6 +24,8 @@ type opRecord struct {
 	Started    bool
 	FaultsAtT0 int64 // stalls injected before the operation started
 	kept       []kept
+	hits0      int64
+	PoolHits   int64 // pooled items handed to this operation
 	KeptBad    string
 }
 
@@ -177,6 +179,19 @@ func runScript(sc *Scenario, ro runOpts) *runResult {
 		}
 	}
 	nCl := int64(len(sc.Clients))
+	// while one client executes a step every other client may execute one too (one time-sliced virtual CPU)
+	sumCost := int64(0)
+	for _, cl := range sc.Clients {
+		c := cl.Cost
+		for _, o := range cl.Ops {
+			if o.Cost > c {
+				c = o.Cost
+			}
+		}
+		sumCost += c
+	}
+	// scheduling slack in steps: a round of quanta of the tasks that share the virtual CPU (clients + clock task)
+	schedSlack := (nCl + 1) * cfg.Quantum
 	fair := cfg.Policy == vsim.Fair
 	bar := &vsim.Barrier{N: len(sc.Clients)}
 	races0 := vsim.RaceErrors()
@@ -214,14 +229,14 @@ func runScript(sc *Scenario, ro runOpts) *runResult {
 				case op.Kind == OpStopClock:
 					// StopTimeoutClock polls every p/2 and needs the clock task to notice: 5p + 2T (+ scheduling slack)
 					if fair && cfg.StallProb == 0 {
-						vDead = r.T0 + 5*p + 2*tickNs + cfg.Jitter*3 + (400+4*nCl*cfg.Quantum)*maxCost
+						vDead = r.T0 + 5*p + 2*tickNs + cfg.Jitter*3 + (400+2*schedSlack)*maxCost
 					}
 				case op.Kind == OpIdle:
 				case d > 0 && r.WantCapped:
 					// a catastrophic timed call: must end in a timeout
-					pre := int64(4*len(op.In.Text()) + 400)
+					pre := int64(12*len(op.In.Text()) + 600) // steps spent decoding the input before the deadline is set
 					if fair && cfg.StallProb == 0 {
-						vDead = r.T0 + d + 3*p + 2*tickNs + cfg.Jitter + (pre+2*nCl*cfg.Quantum)*maxCost
+						vDead = r.T0 + d + 3*p + 2*tickNs + cfg.Jitter + pre*sumCost + 2*schedSlack*maxCost
 					} else {
 						q := cfg.Quantum
 						if q == 0 {
@@ -238,11 +253,13 @@ func runScript(sc *Scenario, ro runOpts) *runResult {
 				}
 				vsim.SetOpLimits(stepLim, vDead)
 				vsim.Inflight(1)
+				r.hits0 = vsim.PoolHitCount()
 				r.Got = execOp(re, op, keep)
 				vsim.Inflight(-1)
 				vsim.SetOpLimits(0, 0)
 				r.T1, r.S1 = vsim.VNow(), vsim.MySteps()
 				r.Late, r.Busy = vsim.SpawnedLag()
+				r.PoolHits = vsim.PoolHitCount() - r.hits0
 				r.Done = true
 				if d > 0 {
 					vsim.NoteMax(r.T1 + d)
@@ -253,7 +270,7 @@ func runScript(sc *Scenario, ro runOpts) *runResult {
 			// max(t_ret+d) + 1s + 3p + 3T + jitter (+ injected stalls) -- DESIGN §3 C14
 			if vsim.ClientFinished() == len(sc.Clients) {
 				if end := vsim.NoteMax(0); end > 0 {
-					vsim.SetWorldVLimit(end + int64(time.Second) + 3*p + 3*tickNs + 2*cfg.Jitter + 2*cfg.StallMax + (400+4*nCl*cfg.Quantum)*maxCost)
+					vsim.SetWorldVLimit(end + int64(time.Second) + 3*p + 3*tickNs + 2*cfg.Jitter + 2*cfg.StallMax + (400+2*schedSlack)*maxCost)
 				}
 			}
 			// results handed out earlier must still read the same
@@ -365,6 +382,40 @@ func runScript(sc *Scenario, ro runOpts) *runResult {
 	case "C12":
 		if w.St.PoolHits > 0 {
 			rr.Probes["nontrivial"] = 1
+		}
+		// reach probes: which kind of call left the state that the next call on the same Regexp reused
+		last := map[int]string{}
+		for i := range rr.Records[0] {
+			r := &rr.Records[0][i]
+			op := &sc.Clients[0].Ops[i]
+			if !r.Done || isSilentOp(op.Kind) {
+				continue
+			}
+			if prev, ok := last[op.Re]; ok && r.PoolHits > 0 {
+				rr.Probes["reuse_after:"+prev+"->"+opNames[op.Kind]]++
+				rr.Probes["reuse_after:"+prev]++
+			}
+			cls := opNames[op.Kind]
+			switch {
+			case strings.HasSuffix(r.Got, "TIMEOUT"):
+				cls = "timeout-abort"
+			case strings.HasSuffix(r.Got, "LIMIT"):
+				cls = "stack-limit-abort"
+			case op.Kind == OpMatchString || op.Kind == OpMatchRunes:
+				cls = "bool-only " + r.Got
+			case strings.Contains(sc.Res[op.Re].Pat, "-o>") || strings.Contains(sc.Res[op.Re].Pat, "-open>"):
+				cls = "balancing " + cls
+			}
+			last[op.Re] = cls
+			if n := len(op.In.Text()); n > 1024 {
+				rr.Probes["input_over_1K"]++
+				if n > 4096 {
+					rr.Probes["input_over_4K"]++
+				}
+				if n > 16384 {
+					rr.Probes["input_over_16K"]++
+				}
+			}
 		}
 	}
 	rr.Probes["clock_tasks_started"] += int64(rr.ClockTasks)
